@@ -7,7 +7,7 @@ namespace MlModel.Tree
 /-- Integer dict keys are non-negative (a negative int key of a dict cannot alias anything, but the
 heap-independent notion `Diverge` asks for non-negative integer keys at the point of divergence). -/
 def NonNegKeys (h : Heap) : Prop :=
-  ∀ (r : Ref) (es : List (DKey × Ref)), h[r]? = some (.dict es) → ∀ e ∈ es, ∀ i, e.1 = .int i → 0 ≤ i
+  ∀ (r : Ref) (es : List (DKey × Ref)), h[r]? = some (.dict es) → ∀ e ∈ es, ∀ i, e.1.norm = .int i → 0 ≤ i
 
 /-! ## leaf walks: plain, pairwise diverging -/
 
@@ -24,6 +24,7 @@ theorem children_key_facts {h : Heap} (hg : GoodDicts h) (hnn : NonNegKeys h) {r
     cases dk with
     | str s => simp [dkeyToPKey, PKey.asInt] at hi
     | int j => simp [dkeyToPKey, PKey.asInt] at hi; subst hi; exact hnn r es hn _ hmem j rfl
+    | idx j => simp [dkeyToPKey, PKey.asInt] at hi; subst hi; exact hnn r es hn _ hmem j rfl
     | lit id v => simp [dkeyToPKey, PKey.asInt] at hi
   | list rs =>
     obtain ⟨i, _, rfl⟩ := mem_seqChildren.mp hm
@@ -36,20 +37,37 @@ theorem children_key_facts {h : Heap} (hg : GoodDicts h) (hnn : NonNegKeys h) {r
   | nd _ _ _ => simp [Node.children] at hm
   | buf _ => simp [Node.children] at hm
 
-theorem children_toDKey_ne {n : Node} {k k' : PKey} {c c' : Ref} (hm : (k, c) ∈ n.children)
+theorem norm_inj_of_nodup {es : List (DKey × Ref)} (hnd : (es.map (·.1.norm)).Nodup) {a b : DKey × Ref}
+    (ha : a ∈ es) (hb : b ∈ es) (e : a.1.norm = b.1.norm) : a = b := by
+  induction es with
+  | nil => cases ha
+  | cons x es ih =>
+    simp only [List.map_cons, List.nodup_cons] at hnd
+    rcases List.mem_cons.mp ha with rfl | ha' <;> rcases List.mem_cons.mp hb with rfl | hb'
+    · rfl
+    · exact absurd (List.mem_map.mpr ⟨b, hb', e.symm⟩) hnd.1
+    · exact absurd (List.mem_map.mpr ⟨a, ha', e⟩) hnd.1
+    · exact ih hnd.2 ha' hb'
+
+/-- (the keys of one dict are distinct up to `==`: `hnd`, from `GoodDicts`) -/
+theorem children_toDKey_ne {n : Node} (hnd : ∀ es, n = .dict es → (es.map (·.1.norm)).Nodup) {k k' : PKey}
+    {c c' : Ref} (hm : (k, c) ∈ n.children)
     (hm' : (k', c') ∈ n.children) (hne : k ≠ k') : k'.toDKey ≠ k.toDKey := by
   cases n with
   | dict es =>
     simp only [Node.children, List.mem_map] at hm hm'
-    obtain ⟨⟨dk, _⟩, _, he⟩ := hm
-    obtain ⟨⟨dk', _⟩, _, he'⟩ := hm'
+    obtain ⟨⟨dk, x⟩, hmem, he⟩ := hm
+    obtain ⟨⟨dk', x'⟩, hmem', he'⟩ := hm'
     simp only [Prod.mk.injEq] at he he'
     obtain ⟨rfl, _⟩ := he
     obtain ⟨rfl, _⟩ := he'
-    have e1 : (dkeyToPKey dk).toDKey = dk := by cases dk <;> rfl
-    have e2 : (dkeyToPKey dk').toDKey = dk' := by cases dk' <;> rfl
+    have e1 : (dkeyToPKey dk).toDKey = dk.norm := by cases dk <;> rfl
+    have e2 : (dkeyToPKey dk').toDKey = dk'.norm := by cases dk' <;> rfl
     rw [e1, e2]
-    intro e; subst e; exact hne rfl
+    intro e
+    have := norm_inj_of_nodup (hnd es rfl) hmem' hmem e
+    simp only [Prod.mk.injEq] at this
+    exact hne (by rw [this.1])
   | list rs =>
     obtain ⟨i, _, rfl⟩ := mem_seqChildren.mp hm
     obtain ⟨i', _, rfl⟩ := mem_seqChildren.mp hm'
@@ -96,7 +114,7 @@ theorem LeafWalk.diverge {h : Heap} (hg : GoodDicts h) (hnn : NonNegKeys h) {r :
         have h2 := (children_slotGet hg hn hm').1
         rw [h1] at h2; cases h2
         exact .next hkp hkp' rfl (ih w2' (fun e => hne (by rw [e])))
-      · exact .here hkp hknn (Or.inl hkp') hknn' (children_toDKey_ne hm hm' hkk)
+      · exact .here hkp hknn (Or.inl hkp') hknn' (children_toDKey_ne (fun es e => (hg r es (e ▸ hn)).1) hm hm' hkk)
 
 /-! ## the enumeration does not depend on cells outside the tree -/
 
@@ -475,7 +493,7 @@ namespace MlModel.Tree
 
 /-! ## strengthening the leaf relation using what the leaf paths read -/
 
-theorem dictPos_of_nodup {es : List (DKey × Ref)} (hnd : (es.map (·.1)).Nodup) {i : Nat} {dk : DKey} {c : Ref}
+theorem dictPos_of_nodup {es : List (DKey × Ref)} (hnd : (es.map (·.1.norm)).Nodup) {i : Nat} {dk : DKey} {c : Ref}
     (hi : es[i]? = some (dk, c)) : dictPos es dk = some i := by
   induction es generalizing i with
   | nil => simp at hi
@@ -486,10 +504,10 @@ theorem dictPos_of_nodup {es : List (DKey × Ref)} (hnd : (es.map (·.1)).Nodup)
     | zero => simp at hi; obtain ⟨rfl, rfl⟩ := hi; simp [dictPos]
     | succ j =>
       simp only [List.getElem?_cons_succ] at hi
-      have hne : k0 ≠ dk := by
-        intro e; subst e
-        exact hnd.1 (List.mem_map.mpr ⟨(k0, c), List.mem_of_getElem? hi, rfl⟩)
-      simp [dictPos, hne, ih hnd.2 hi]
+      have hne : ¬ k0.norm = dk.norm := by
+        intro e
+        exact hnd.1 (List.mem_map.mpr ⟨(dk, c), List.mem_of_getElem? hi, e.symm⟩)
+      simp only [dictPos, if_neg hne, ih hnd.2 hi, Option.map_some]
 
 theorem seqChildren_get {rs : List Ref} {start i : Nat} {c : Ref} (hi : rs[i]? = some c) :
     ((PKey.idx ((start + i : Nat) : Int)), c) ∈ seqChildren rs start :=
@@ -503,8 +521,8 @@ theorem children_at_pos {h : Heap} (hg : GoodDicts h) {b : Ref} {n : Node} (hn :
     simp only [Node.refs, List.getElem?_map, Option.map_eq_some_iff] at hi
     obtain ⟨⟨dk, c'⟩, he, rfl⟩ := hi
     refine ⟨dkeyToPKey dk, List.mem_map.mpr ⟨(dk, c'), List.mem_of_getElem? he, rfl⟩, ?_⟩
-    have hd : (dkeyToPKey dk).toDKey = dk := by cases dk <;> rfl
-    simp only [Node.slotPos, hd]
+    have hd : (dkeyToPKey dk).toDKey = dk.norm := by cases dk <;> rfl
+    simp only [Node.slotPos, hd, dictPos_norm]
     exact dictPos_of_nodup (hg b es hn).1 he
   | list rs =>
     simp only [Node.refs] at hi
@@ -562,7 +580,7 @@ namespace MlModel.Tree
 
 def nonNegKeysB (h : Heap) : Bool :=
   h.toList.all fun n => match n with
-    | .dict es => es.all fun e => match e.1 with | .int i => decide (0 ≤ i) | _ => true
+    | .dict es => es.all fun e => match e.1.norm with | .int i => decide (0 ≤ i) | _ => true
     | _ => true
 
 theorem nonNegKeysB_sound {h : Heap} (hb : nonNegKeysB h = true) : NonNegKeys h := by
